@@ -160,4 +160,13 @@ CHECKS = {
        'with element names from the fixed template sets, marker only as escaped text in XML/HTML, no traceback or server path. Thorough adds an atheris byte-level campaign.',
   note='Catch-all 500 "internal error" pages are accepted as complete responses (counted by exception class); upstream lies passed through unchanged are not judged; element whitelists in '
        'markup.py were copied from the 4.0.2 templates; JS-string-context injection in demo pages is not detected.'),
+ 'C14': dict(
+  category='exploration',
+  design_ref='DESIGN.md section 15',
+  technique='Hypothesis-generated WMS layer stacks over analytic RGBA upstream fields; differential pixel comparison against an independent float "over" compositor that never prunes, fast-paths or combines; upstream-log based root-cause attribution',
+  text='~45k generated GetMap requests per quick run (240k configurations thorough) over 1-6 direct WMS sources with opacity, colour keys (+tolerance), coverages with and without clip, resolution '
+       'ranges, group layers, RGB / RGBA / paletted / tRNS delivery, combinable same-URL sources (the synthetic server answers LAYERS=a,b with its own composite), transparent flag, bgcolor, png and '
+       'jpeg output; each response is compared pixel-wise with the full unoptimised bottom-to-top composition computed from the individual layer images.',
+  note='Tolerance 2 levels per layer; pixels within 1.1 px of a coverage edge are not judged; JPEG is judged only in smooth regions. Direct WMS sources only (no caches, tile sources, band merging, '
+       'reprojection). One open known finding (colour key applied after a combined request) is excluded by construction and demonstrated by a regression case.'),
 }
